@@ -23,6 +23,7 @@ pub fn pool_case(data: &[u8]) -> Option<PoolCase> {
         holder_polls_ready: false,
         ready_hides_close: false,
         build_path: 0,
+        fused_attempts: false,
     };
     let mut ops = vec![];
     while !u.is_empty() && ops.len() < 160 {
